@@ -52,6 +52,11 @@ def run(rep, idx, tier):
     rep.require("C20.6", 1)
     from . import glue as _glue
     _glue.argument_agreement(rep, "C20.6", idx)
+    rep.require("C20.8", 1)
+    _glue.single_pass_iterables(rep, "C20.8", idx)
+    rep.require("C20.7", 15)
+    _glue.forwarded_parameters(rep, "C20.7", idx, [c_.site.split("::")[0].replace(".py", "") + ":" + c_.qual for c_ in idx.all_classes()
+                                                  if c_.method("__init__") is not None])
     _glue.param_refusals(rep, "C20.4", idx, only=["Signature.__init__", "Interface.__init__", "Element.__init__", "Source.__init__"])
     P = Pol(idx)
     port_polarity(rep, idx, P)
@@ -461,6 +466,26 @@ def parameters(rep, idx, P, sig, icls):
     rep.form(set(params) <= stored or set(params) <= props, "C20.4", site, f"{sig.qual}.__init__ keeps every defining parameter {params}",
              f"stored: {sorted(stored)}; properties: {sorted(props)}",
              wrong=(f"parameter(s) {sorted(set(params) - stored - props)} are neither stored nor exposed") if (set(params) - stored - props) else None)
+    # (a') a collection of enumeration members is stored converted, whatever collection the caller used: frozenset(Feature(f) for f
+    #      in features).  Keeping a caller's frozenset as it is lets raw values ("err") through: no member matches Feature.ERR, the
+    #      optional signals are missing, and the signature is unequal to the same features spelled as a set
+    if "features" in params:
+        from .common import get_ctor
+        try:
+            ct = get_ctor(idx, sig)
+            st_ = ct.stores.get("self._features")
+        except Exception:
+            st_ = None
+        if st_ is not None:
+            sv = ct.norm(st_[0])
+            want = ct.norm(ct.parse("frozenset(Feature(f) for f in features)"))
+            raw = ('name', 'features')
+            leaks = sv == raw or (sv[0] == 'phi' and raw in (sv[2], sv[3]))
+            rep.form(sv == want, "C20.4", init.site, f"{sig.qual} stores its features as a frozenset of Feature members",
+                     f"stores {ir.show(sv)[:100]}",
+                     wrong=("for some inputs the caller's collection is stored unconverted: features given by value (frozenset({'err'})) are "
+                            "then not Feature members, `Feature.ERR in self.features` is false, the optional signal is missing, and the "
+                            "signature is unequal to the one built from the same features spelled as a set or a list") if leaks else None)
     # (b) __eq__ is true exactly when the other object is of this signature class and every defining parameter is equal:
     #     decided on the Boolean function the method computes (and-chain, early returns, != with False, ... all the same)
     eq = sig.method("__eq__")
